@@ -101,6 +101,7 @@ def main(argv):
             return 2
         if args.replay:
             return do_replay(args.what, args.replay, args.verify)
+        os.environ["VERIF_TIER_EFFECTIVE"] = args.tier
         print("check %s tier=%s VERIF_SEED=%d repo=%s jobs=%d" %
               (args.what, args.tier, core.verif_seed(), core.repo_dir(), core.jobs()))
         sys.stdout.flush()
